@@ -166,7 +166,7 @@ impl Env {
             self.push(Ev::Act { hid, task, idx, res });
         }
         if let Some(f) = &self.case.fault {
-            if f.task == task && f.k == k {
+            if f.hits(task, k) {
                 self.push(Ev::Fault { hid, task, kind: f.kind });
                 match f.kind {
                     FaultKind::Err => return mk_err(),
@@ -326,26 +326,36 @@ impl Env {
             }
             Op::SetDesc { kind, name, id } => {
                 let id = *id;
+                // marker descriptors; ids >= REENTRANT_DESC re-enter the engine from inside the descriptor
+                fn mark(id: usize, parts: String) -> String {
+                    if id >= REENTRANT_DESC {
+                        let inner = match parse_expression("inner_q") {
+                            Ok(a) => a.describe(),
+                            Err(e) => format!("ERR {}", e),
+                        };
+                        format!("<{}|{}|{}>", id, parts, inner)
+                    } else {
+                        format!("<{}|{}>", id, parts)
+                    }
+                }
                 let mut m = DescriptorManager::new();
                 match kind {
-                    DKind::Unary => m.set_unary_descriptor(name.clone(), Arc::new(move |a, b| format!("<{}|{}|{}>", id, a, b))),
+                    DKind::Unary => m.set_unary_descriptor(name.clone(), Arc::new(move |a, b| mark(id, format!("{}|{}", a, b)))),
                     DKind::Binary => {
-                        m.set_binary_descriptor(name.clone(), Arc::new(move |a, b, c| format!("<{}|{}|{}|{}>", id, a, b, c)))
+                        m.set_binary_descriptor(name.clone(), Arc::new(move |a, b, c| mark(id, format!("{}|{}|{}", a, b, c))))
                     }
-                    DKind::Postfix => {
-                        m.set_postfix_descriptor(name.clone(), Arc::new(move |a, b| format!("<{}|{}|{}>", id, a, b)))
-                    }
-                    DKind::Ternary => m.set_ternary_descriptor(Arc::new(move |a, b, c| format!("<{}|{}|{}|{}>", id, a, b, c))),
+                    DKind::Postfix => m.set_postfix_descriptor(name.clone(), Arc::new(move |a, b| mark(id, format!("{}|{}", a, b)))),
+                    DKind::Ternary => m.set_ternary_descriptor(Arc::new(move |a, b, c| mark(id, format!("{}|{}|{}", a, b, c)))),
                     DKind::Function => m.set_function_descriptor(
                         name.clone(),
-                        Arc::new(move |a, xs: Vec<String>| format!("<{}|{}|{}>", id, a, xs.join("|"))),
+                        Arc::new(move |a, xs: Vec<String>| mark(id, format!("{}|{}", a, xs.join("|")))),
                     ),
-                    DKind::Reference => m.set_reference_descriptor(name.clone(), Arc::new(move |a| format!("<{}|{}>", id, a))),
-                    DKind::List => m.set_list_descriptor(Arc::new(move |xs: Vec<String>| format!("<{}|{}>", id, xs.join("|")))),
+                    DKind::Reference => m.set_reference_descriptor(name.clone(), Arc::new(move |a| mark(id, a))),
+                    DKind::List => m.set_list_descriptor(Arc::new(move |xs: Vec<String>| mark(id, xs.join("|")))),
                     DKind::Map => m.set_map_descriptor(Arc::new(move |xs: Vec<(String, String)>| {
-                        format!("<{}|{}>", id, xs.into_iter().map(|(k, v)| format!("{}=>{}", k, v)).collect::<Vec<_>>().join("|"))
+                        mark(id, xs.into_iter().map(|(k, v)| format!("{}=>{}", k, v)).collect::<Vec<_>>().join("|"))
                     })),
-                    DKind::Chain => m.set_chain_descriptor(Arc::new(move |xs: Vec<String>| format!("<{}|{}>", id, xs.join("|")))),
+                    DKind::Chain => m.set_chain_descriptor(Arc::new(move |xs: Vec<String>| mark(id, xs.join("|")))),
                 }
                 Res::Unit
             }
